@@ -269,6 +269,19 @@ def make_case(rng):
             e['terms'] = [{'k': fs(k), 'v0': fs(-xval / k), 'form': 0, 'style': 'symbolic'}]
         e['probe'] = probes(e['terms'])
         eqs.append(e)
+    # twins: a second equation built on the very same SymPy sub-expression object as an earlier one (a model in which
+    # two variables share a term: rate = c + P(V), tau = d + P(V)); the analysis of P is then served from the cache of
+    # _get_singularity and must repair the second equation exactly like the first
+    cands = [e for e in eqs if e['kind'] in ('single', 'prod-different-sp', 'prod-equal-sp', 'sum-different-sp',
+                                             'sum-equal-sp', 'sum-of-product')]
+    if cands and rng.random() < 0.6:
+        e0 = rng.choice(cands)
+        key = 'S' + e0['name']
+        core = e0['rhs']
+        e0['rhs'] = ['share', key, core]
+        eqs.append({'name': 'T' + e0['name'][1:], 'rhs': ['add', ['share', key, core], q(rng.choice([1, -3, Fraction(5, 2)]), 'dl')],
+                    'kind': e0['kind'], 'terms': e0['terms'], 'expect': e0['expect'], 'detail': e0['detail'] + '/twin',
+                    'probe': e0['probe']})
     # one equation without the pattern, one excluded equation with the pattern, one Piecewise right-hand side
     plain = rng.choice([
         ['add', ['mul', q(3, 'pmV'), ['V']], ['exp', ['mul', q(Fraction(1, 8), 'pmV'), ['V']]]],
@@ -358,10 +371,16 @@ def build(case):
     b.V = m.add_variable('V', u['mV'], initial_value=-80.0)
     b.vars = {'V': b.V}
 
+    shared = {}
+
     def ex(spec):
         op = spec[0]
         if op == 'q':
             return m.create_quantity(float(Fraction(spec[1])), u[spec[2]])
+        if op == 'share':     # the SAME SymPy object in several equations (so the cached analysis is hit again)
+            if spec[1] not in shared:
+                shared[spec[1]] = ex(spec[2])
+            return shared[spec[1]]
         if op == 'V':
             return b.V
         if op == 'v':
